@@ -236,3 +236,19 @@ Example C19_union_flags_nonvacuous :
   pack E_ex6 true Mixin (VInst 2 1 1 [(2, VInst 1 2 2 [(1, VInt)])]) (TDc 2) true (false, false, true) CTok
   = (true, [Pre 2 1 CTok; Pre 1 2 CTok; Post 1 2 CTok; Post 2 1 CTok]).
 Proof. split; vm_compute; reflexivity. Qed.
+
+(* nested class-level discriminators: Base (0, dispatches on the tag) <- Mid (1, tag 1, itself a dispatcher without a
+   field) <- Leaf (2, tag 2, one required field) and Leaf2 (3, tag 3).  The tag of Mid selects Mid, whose from_dict tries
+   Mid's subclasses in order; only the class finally constructed runs its hooks (here inherited from Base), once. *)
+Definition E_ex7 : env :=
+  [ mk_cinfo_h [Build_field 0 TInt false] false false true true false None None (Some true);
+    mk_cinfo_h [Build_field 0 TInt false] false false true true false (Some 0) (Some 1) (Some false);
+    mk_cinfo_h [Build_field 0 TInt false; Build_field 1 TInt false] false false true true false (Some 1) (Some 2) None;
+    mk_cinfo_h [Build_field 0 TInt false] false false true true false (Some 1) (Some 3) None ].
+Example C19_disc_nested_nonvacuous :
+  unpack E_ex7 (WDict (Some 1) [(0, WInt)]) (TDc 0) 0
+  = (Some (VInst 3 0 0 [(0, VInt)]), [PreDe 2; PreDe 3; PostDe 3 0], 1) /\
+  unpack E_ex7 (WDict (Some 2) [(0, WInt); (1, WInt)]) (TDc 0) 0
+  = (Some (VInst 2 0 0 [(0, VInt); (1, VInt)]), [PreDe 2; PostDe 2 0], 1) /\
+  post_events_of E_ex7 (VInst 3 0 0 [(0, VInt)]) [PreDe 2; PreDe 3; PostDe 3 0] = [PostDe 3 0].
+Proof. repeat split; vm_compute; reflexivity. Qed.
